@@ -70,3 +70,11 @@ Theorem C16_forward_declaration_order : forall name fields p0 p1 p2,
   end.
 Proof. exact forward_declaration_order. Qed.
 Print Assumptions C16_forward_declaration_order.
+
+Theorem C16_second_typedef_order : forall a b f0 fields p1 p2 p3,
+  let f := f0 :: fields in
+  Forall2 same_record (tfinal (trun [TTypedef a p1; TTypedef b p2; TStruct f p3])) (tfinal (trun [TTypedef a p1; TStruct f p3; TTypedef b p2]))
+  /\ Forall2 same_record (tfinal (trun [TTypedef a p1; TTypedef b p2; TStruct f p3])) (tfinal (trun [TStruct f p3; TTypedef a p1; TTypedef b p2]))
+  /\ map r_fields (tfinal (trun [TTypedef a p1; TTypedef b p2; TStruct f p3])) = [f; f].
+Proof. exact second_typedef_order. Qed.
+Print Assumptions C16_second_typedef_order.
